@@ -66,8 +66,8 @@ var c05 = Register("C05", "C05.parse", func(a c05Args) *Violation {
 	// valid literal: under every value of DefaultRoundingMode; a literal of more than 50 000 characters costs
 	// milliseconds per entry point and mode, so it is checked under nearest-even and one other mode picked by the
 	// case (all modes still occur, spread over the cases)
-	modes := ref.Modes
-	if len(s) > 50000 {
+	modes := loopModes()
+	if len(s) > 50000 && walkMode < 0 {
 		modes = []d128.RoundingMode{d128.ToNearestEven, ref.Modes[1+hashString(s[:64])%5]}
 	}
 	for _, m := range modes {
@@ -123,6 +123,11 @@ var c05 = Register("C05", "C05.parse", func(a c05Args) *Violation {
 		if sv != nil {
 			return sv
 		}
+	}
+	// a caller that reuses its buffer (the bufio.Scanner pattern): the same slice holding first this literal, then
+	// another one of the same length, then this one again must give three independent results
+	if v := reusedBuffer(s, l, st); v != nil {
+		return v
 	}
 	// classification
 	klass := "short"
@@ -533,4 +538,51 @@ func TestC05_ParseInvalid(t *testing.T) {
 	runRapid(t, 60000, 1200000, func(t *rapid.T) {
 		c05.Run(t, c05Args{S: genInvalidCandidate(t)})
 	})
+}
+
+// reusedBuffer decodes s, a same-length twin of s (one mantissa digit changed) and s again from ONE byte slice that
+// is overwritten in place between the calls, under one DefaultRoundingMode chosen by the case, and compares each
+// result with the independent evaluation of the text the slice held at the time of the call.
+func reusedBuffer(s string, l literal, st *Stat) *Violation {
+	if l.Kind != ref.Finite || len(s) > 4096 || hashString(s)%4 != 0 {
+		return nil
+	}
+	i := strings.IndexAny(s, "0123456789")
+	if i < 0 {
+		return nil
+	}
+	tw := []byte(s)
+	if tw[i] == '9' {
+		tw[i] = '4'
+	} else {
+		tw[i]++
+	}
+	twin := string(tw)
+	l2 := classifyLiteral(twin)
+	if l2.Class != l.Class || l2.Kind != ref.Finite {
+		return nil
+	}
+	m := ref.Modes[hashString(s)>>2%6]
+	buf := []byte(s)
+	texts := []string{s, twin, s}
+	lits := []literal{l, l2, l}
+	for k := range texts {
+		copy(buf, texts[k])
+		u := prior(hashString(s) + uint64(k))
+		var err error
+		withDefaultMode(m, func() { err = u.UnmarshalText(buf) })
+		want, overflow, alt := lits[k].expected(m)
+		g := ref.Decode(u)
+		if overflow {
+			if err == nil || !errors.Is(err, strconv.ErrRange) {
+				return violf("UnmarshalText(%s) from a reused buffer (call %d) mode %v: err %v, want an error matching strconv.ErrRange", abbr(strconv.Quote(texts[k])), k+1, m, err)
+			}
+			continue
+		}
+		if err != nil || (!ref.SameVal(g, want) && !(alt != nil && ref.SameVal(g, *alt))) {
+			return violf("UnmarshalText(%s) from a buffer that held another literal before (call %d of 3 on one slice) mode %v = %s, %v; want %s", abbr(strconv.Quote(texts[k])), k+1, m, g, err, want)
+		}
+	}
+	st.Class("reused-buffer")
+	return nil
 }
